@@ -121,6 +121,28 @@ def search(ctx):
             ctx.count(('name', v), hist='search:names', sample={'sgname': v} if k == 'r-3ch' else None)
             if why:
                 fails.append({'sgname': v, 'what': why, 'replay': why})
+    # names together with an explicit setting (the call form of genhkl_all / genhkl_unique / multiplicity): the trailing r forces the rhombohedral
+    # setting, otherwise the requested setting is used, exactly as for a lookup by number.  (R...h together with 'rhombohedral' is contradictory and not examined.)
+    eq = lambda a, b: (a.no == b.no and a.name == b.name and a.cell_choice == b.cell_choice and a.nsymop == b.nsymop and a.nuniq == b.nuniq
+                       and np.array_equal(a.rot, b.rot) and np.array_equal(a.trans, b.trans) and np.array_equal(a.syscond, b.syscond) and a.Laue == b.Laue
+                       and a.crystal_system == b.crystal_system)
+    for k in keys:
+        for ch in ('standard', 'rhombohedral'):
+            if k[0] == 'r' and k[-1] == 'h' and ch == 'rhombohedral':
+                continue
+            for form in ('keyword', 'positional'):
+                v = k if form == 'keyword' else k.upper()
+                try:
+                    a = sg.sg(sgname=v, cell_choice=ch) if form == 'keyword' else sg.sg(None, v, ch)
+                    req = 'rhombohedral' if (k[0] == 'r' and k[-1] == 'r') else ch
+                    b = sg.sg(sgno=a.no, cell_choice=req)
+                    why = None if eq(a, b) else ('lookup by name %r with cell_choice=%r gives %s (%s, %d operations), by number %d with cell_choice=%r gives %s (%s, %d operations)'
+                                                 % (v, ch, a.name, a.cell_choice, a.nsymop, a.no, req, b.name, b.cell_choice, b.nsymop))
+                except Exception as e:
+                    why = 'lookup by name %r with cell_choice=%r raised %s: %s' % (v, ch, type(e).__name__, e)
+                ctx.count(('name+choice', v, ch, form), hist='search:names with explicit cell_choice', sample={'sgname': v, 'cell_choice': ch} if k == 'r-3' and form == 'keyword' else None)
+                if why:
+                    fails.append({'sgname': v, 'cell_choice': ch, 'what': why, 'replay': why})
     return fails[:20]
 
 
